@@ -326,6 +326,36 @@ def _case(args):
             do(fam[3], pool + [pool[0]], True)          # duplicate name
             do(fam[3], feats_all, True, logs=True)
             do(fam[3], feats_all, True, logs=True, tiny=False)
+            # the same output path used again (override): the second
+            # export replaces the first; path given without the suffix
+            for suffixless in (False, True):
+                stem = outp.with_suffix("") if suffixless else outp
+                real = outp
+                if real.exists():
+                    real.unlink()
+                first, second = fam[3], fam[2]
+                case = {"kind": kind, "n": n, "seed": seed,
+                        "mode": "repeat", "suffixless": suffixless}
+                try:
+                    for mk in (first, second):
+                        ds.filter.manual[:] = mk
+                        ds.apply_filter()
+                        ds.export.hdf5(stem, features=["deform", "area_um"],
+                                       filtered=True, override=True)
+                    vs = compare_export(
+                        real, src, np.flatnonzero(second),
+                        ["deform", "area_um"], True,
+                        dict(case, logs=False), {"kind": kind,
+                                                 "filtered": True,
+                                                 "empty": False,
+                                                 "repeat": True})
+                except Exception as e:
+                    vs = [violation(EX, "exception", case,
+                                    f"{type(e).__name__}: {e}",
+                                    {"kind": kind, "repeat": True,
+                                     "exc": type(e).__name__})]
+                stats["exports"] += 2
+                out.extend(vs)
             # an explicitly requested prefix for the carried-over items
             do(fam[3], feats_all, True, logs=True, prefix="")
             do(fam[3], feats_all, False, logs=True, prefix="orig-")
@@ -649,6 +679,11 @@ def replay(case, ctx):
     if case.get("kind") == "big":
         from .. import big
         return big.violations("C02", ctx.scratch)
+    if case.get("mode") == "repeat":
+        _, vs = _case((case["kind"], case["n"], case["seed"], "subsets",
+                       True, ctx.scratch))
+        return [v for v in vs if v["case"].get("mode") == "repeat"
+                and v["case"].get("suffixless") == case["suffixless"]]
     if case.get("mode") == "bigtsv":
         return [v for v in bigtsv_violations(ctx.scratch)
                 if v["case"] == case]
